@@ -202,13 +202,16 @@ def run(prog, R):
     st = prog.body(S2S + "stmt_to_asg_stmt")
     if st:
         ps, _ = paths(prog, st.npath)
-        ok = False
+        ninc, silent = 0, []
         for p in ps:
             if arm_of(prog, p, STMT_ENUM, "stmt") == "Include":
                 if "__diverged__" in p.env:
-                    continue
-                ok = errors_on(p) == ["IncludeNotInGlobalScopeError"] and show(deep_strip(p.env.get(0))) == "Option::None"
-        R.ob("C18.4-include-below-global", "nested Include => IncludeNotInGlobalScopeError, no statement", ok, st.at, "")
+                    continue        # the `unreachable!()` of the global-scope case (top-level includes never get here: C03.1 reviewed entry)
+                ninc += 1
+                if not (errors_on(p) == ["IncludeNotInGlobalScopeError"] and show(deep_strip(p.env.get(0))) == "Option::None"):
+                    silent.append(([(show(t)[-40:], c) for t, c in conds_of(p)][-2:], errors_on(p)))
+        R.ob("C18.4-include-below-global", "nested Include => IncludeNotInGlobalScopeError, no statement", ninc >= 1 and not silent, st.at,
+             f"{ninc} returning path(s) of the Include arm, each reports the diagnostic" if not silent else f"a returning path of the Include arm reports nothing: {silent[:2]} (an include in a def/gate body would be dropped silently)")
     # ---- C18.6 recursion shape and inventory
     cg = prog.callgraph()
     inc_fns = [k for k in prog.bodies if k.startswith(SF + "parse_included_files") or k == SF + "parse_source_and_includes"]
